@@ -34,6 +34,16 @@ def _dataset(rng: random.Random, n_traces: int, tb: int) -> tuple[list[dict], di
         tree = store.rand_tree(rng, 2, TYPES)
         traces.append({"job_id": f"tr-{tag}", "name": NAMES[0], "kind": "complete",
                        "spans": store.materialise(tree, f"tr-{tag}", NAMES[0], t0, rng, 10**6)})
+    # zero-duration single-span traces sitting exactly on the extremes of the ingested data
+    # (window edges are inclusive: with time_buffer 0 they are inside, and every run -
+    # ingesting or not - has to agree on that)
+    lo = min(s["start_timestamp"] for t in traces for s in t["spans"])
+    hi = max(s["end_timestamp"] for t in traces for s in t["spans"])
+    for tag, t0 in (("instant-first", lo), ("instant-last", hi)):
+        traces.append({"job_id": f"tr-{tag}", "name": NAMES[2], "kind": "complete", "spans": [{
+            "job_name": NAMES[2], "job_id": f"tr-{tag}", "event_type": "heartbeat-" + tag,
+            "event_id": f"tr-{tag}.0", "start_timestamp": t0, "end_timestamp": t0,
+            "application_name": "app", "parent_event_id": None}]})
     tree = store.rand_tree(rng, 3, TYPES)
     sp = store.materialise(tree, "tr-dangling", NAMES[1], base + total // 2, rng, 10**6)
     sp[-1]["parent_event_id"] = "tr-dangling.missing"
